@@ -242,6 +242,46 @@ fn saturated(out: &mut Shards, rng: &mut Rng, nbits: u64, k: u16) {
     }
 }
 
+/// union / intersect between filters that differ in one configuration field: accepted exactly when
+/// capacity, number of hash functions and seed all agree (an accepted mixed operation would silently
+/// lose items: the probes of one filter are not the probes of the other)
+fn refusals(out: &mut Shards, rng: &mut Rng) {
+    out.next_run("bloom-refusals");
+    let cfgs: Vec<(u64, u16, u64)> = vec![
+        (4096, 5, 9001), (4096, 2, 9001), (4096, 5, 17), (4032, 5, 9001), (4096, 6, 9001), (64, 1, 9001), (64, 1, 0), (128, 1, 9001),
+        (4090, 5, 9001), // rounds up to the capacity of the first: compatible with it
+    ];
+    for (i, &(na, ka, sa)) in cfgs.iter().enumerate() {
+        for (j, &(nb, kb, sb)) in cfgs.iter().enumerate() {
+            for kind in ["union", "inter"] {
+                let mut a = BloomFilterBuilder::with_size(na, ka).seed(sa).build();
+                let mut b = BloomFilterBuilder::with_size(nb, kb).seed(sb).build();
+                let fill = (i + j) % 3; // 0: both loaded, 1: argument empty, 2: receiver empty
+                for t in 0..20u64 {
+                    if fill != 2 {
+                        a.insert(rng.next() ^ t);
+                    }
+                    if fill != 1 {
+                        b.insert(rng.next() ^ t);
+                    }
+                }
+                let compat = a.is_compatible(&b);
+                let accepted = catch(std::panic::AssertUnwindSafe(|| {
+                    if kind == "union" {
+                        a.union(&b)
+                    } else {
+                        a.intersect(&b)
+                    }
+                }))
+                .is_ok();
+                out.ev(json!({"op":"BTry","kind":kind,"compat":compat,"accepted":accepted,
+                    "a":{"cap":a.capacity() as u64,"k":ka,"seed8":sa.to_le_bytes().to_vec()},
+                    "b":{"cap":b.capacity() as u64,"k":kb,"seed8":sb.to_le_bytes().to_vec()}}));
+            }
+        }
+    }
+}
+
 pub fn record(args: &Args) {
     let seed = args.u64("seed", 1);
     let mut rng = Rng::new(seed ^ 0xB100);
@@ -263,6 +303,7 @@ pub fn record(args: &Args) {
     for &(nbits, k) in &[(64u64, 16u16), (64, 3), (128, 7), (192, 2), (1, 1)] {
         saturated(&mut out, &mut rng, nbits, k);
     }
+    refusals(&mut out, &mut rng);
     let (runs, events) = out.finish();
     println!("{}", json!({"runs":runs,"events":events}));
 }
